@@ -84,6 +84,11 @@ func rulesC04(r *Run) {
 	ruleExecSeqStatus(r, "R7")
 	ruleRunnerEnd(r, "R7")
 	r.Expect("R7", 2)
+
+	// ---- R8
+	r.Kind("R8", "K3")
+	ruleEndStamped(r, "R8", m)
+	r.Expect("R8", 8)
 }
 
 // ruleEndWrites: End runs finalStates and writes everything on every exit.
@@ -96,6 +101,9 @@ func ruleEndWrites(r *Run, rule string) {
 	if !ok {
 		return
 	}
+	// the writer: whichever sm function End calls that reaches every storage updater (writeEverything by name before
+	// D33, writeChildrenFirst since)
+	writer := endWriterKey(r)
 	bad := ""
 	var bpos token.Pos = fn.Decl.Pos()
 	n := 0
@@ -111,7 +119,7 @@ func ruleEndWrites(r *Run, rule string) {
 			if IsCall(e, keyRun) {
 				ri = j
 			}
-			if IsCall(e, smKey("writeEverything")) && !e.Maybe {
+			if writer != "" && IsCall(e, writer) && !e.Maybe {
 				wi = j
 			}
 			if e.Kind == EvAssign && !e.Maybe {
@@ -132,7 +140,7 @@ func ruleEndWrites(r *Run, rule string) {
 		case ri < 0 || !finalEntry:
 			msg = "a path of End returns without running the finalStates machine (entry finalStates.start)"
 		case wi < 0:
-			msg = "a path of End returns without calling writeEverything"
+			msg = "a path of End returns without calling a function that writes every kind of object (writeEverything)"
 		case wi < ri:
 			msg = "writeEverything runs before the final state is computed"
 		case ei < 0 || ei > wi:
@@ -194,7 +202,11 @@ func kindTest(info *types.Info, e Event) (kind string, taken, ok bool) {
 }
 
 func ruleWriteEverything(r *Run, rule string) {
-	fn := r.fnByKey(rule, smKey("writeEverything"))
+	wk := endWriterKey(r)
+	if wk == "" {
+		wk = smKey("writeEverything")
+	}
+	fn := r.fnByKey(rule, wk)
 	if fn == nil {
 		return
 	}
@@ -1519,4 +1531,179 @@ func ruleFinalNoSilentStop(r *Run, rule string, fm *Machine) {
 		}
 		r.Check(rule, "final:"+st+":no-silent-stop", bpos, bad == "", "%s", orOK(bad, "every path names a successor or sets Err"))
 	}
+}
+
+// ruleEndStamped (C04-R8, round-3 seed C04-5): "start <= end everywhere" has a structural necessary condition —
+// whoever gives an object a terminal status (Completed, Failed, Stopped) stamps its State.End, or hands the
+// object on to the one place that does. Decided per returning path of every function of the engine packages:
+// a path that assigns a terminal status to X (a Plan, Block, Sequence, Checks or Action) must also assign
+// X.State.End (in place or in a deferred function), unless the function delegates the stamp:
+//   - a state of the plan machine that fails/completes the head block, when no route from it to the next
+//     block or to the end of the machine avoids BlockEnd, whose every path stamps the block;
+//   - anything that settles the plan's own status before End, whose every path stamps the plan
+//     (fixPlan's verdicts are routed to End by Recovery, C10-R2; finalStates run inside End).
+func ruleEndStamped(r *Run, rule string, m *Machine) {
+	terminal := map[string]bool{"workflow.Completed": true, "workflow.Failed": true, "workflow.Stopped": true}
+	owners := []string{"workflow.Plan", "workflow.Block", "workflow.Sequence", "workflow.Checks", "workflow.Action"}
+	// delegation: state functions from which BlockEnd / End cannot be avoided
+	blockDelegates := map[string]bool{}
+	planDelegates := map[string]bool{pkgSM + ".finalStates.planChecks": true, pkgSM + ".finalStates.blocks": true, pkgSM + ".finalStates.end": true, smKey("fixPlan"): true}
+	for st, fn := range m.States {
+		if fn == nil {
+			continue
+		}
+		if st != "BlockEnd" {
+			reach := m.reach(st, map[string]bool{"BlockEnd": true})
+			if !reach[Terminal] && !reach["ExecuteBlock"] && !reach["End"] || st == "ExecuteBlock" {
+				// ExecuteBlock itself only settles a block it then hands to BlockBypassChecks…BlockEnd or skips untouched
+				blockDelegates[fn.Key] = true
+			}
+		}
+		if st != "End" {
+			reach := m.reach(st, map[string]bool{"End": true})
+			if !reach[Terminal] {
+				planDelegates[fn.Key] = true
+			}
+		}
+	}
+	n := 0
+	for _, fn := range r.P.sortedFuncs() {
+		rel := relPkg(fn.Pkg.PkgPath)
+		if fn.Decl.Body == nil || (rel != pkgSM && rel != pkgActions && rel != pkgExec) {
+			continue
+		}
+		if strings.HasSuffix(r.P.Fset.Position(fn.Decl.Pos()).Filename, "_test.go") {
+			continue
+		}
+		info := fn.Pkg.TypesInfo
+		// cheap pre-filter: does the function assign a terminal status at all?
+		assigns := false
+		ast.Inspect(fn.Decl.Body, func(x ast.Node) bool {
+			if as, ok := x.(*ast.AssignStmt); ok && len(as.Lhs) == len(as.Rhs) {
+				for i, l := range as.Lhs {
+					if _, m := FieldPath(info, l, "", "State", "Status"); m && terminal[ValueKey(info, as.Rhs[i])] {
+						assigns = true
+					}
+				}
+			}
+			return !assigns
+		})
+		if !assigns {
+			continue
+		}
+		fl := r.P.FlowOf(fn)
+		paths, ok := fl.Paths()
+		if !ok {
+			r.Undecided(rule, "paths:"+fn.Key, fn.Decl.Pos(), "too many paths")
+			continue
+		}
+		r.Funcs[fn.Key] = true
+		r.Paths += len(paths)
+		paths = fl.OwnCode(paths)
+		bad := map[string]string{}
+		pos := map[string]token.Pos{}
+		seen := map[string]bool{}
+		for i := range paths {
+			p := &paths[i]
+			if p.Exit != ExitReturn {
+				continue
+			}
+			type st struct {
+				owner string
+				base  string
+				val   string
+				pos   token.Pos
+			}
+			last := map[string]st{} // base → last status assigned on the path
+			ended := map[string]bool{}
+			for _, e := range p.Ev {
+				if e.Kind != EvAssign || len(e.Lhs) != len(e.Rhs) {
+					continue
+				}
+				for k, l := range e.Lhs {
+					for _, ow := range owners {
+						if b, m := FieldPath(info, l, ow, "State", "Status"); m {
+							last[ExprStr(b)] = st{ow, ExprStr(b), ValueKey(info, e.Rhs[k]), e.Pos}
+						}
+						if b, m := FieldPath(info, l, ow, "State", "End"); m {
+							if tv, ok := info.Types[e.Rhs[k]]; ok && !isZeroTimeLit(e.Rhs[k]) && tv.Type != nil {
+								ended[ExprStr(b)] = true
+							}
+						}
+						// X.State = &workflow.State{…} / whole-state replacement: not a stamp, not a status we track
+					}
+				}
+			}
+			for base, s := range last {
+				if !terminal[s.val] {
+					continue
+				}
+				seen[s.owner] = true
+				if ended[base] {
+					continue
+				}
+				if s.owner == "workflow.Block" && blockDelegates[fn.Key] {
+					continue
+				}
+				if s.owner == "workflow.Plan" && planDelegates[fn.Key] {
+					continue
+				}
+				if bad[s.owner] == "" {
+					bad[s.owner] = "a path gives " + base + " the status " + strings.TrimPrefix(s.val, "workflow.") + " without stamping " + base + ".State.End (guard " + ExitGuardKey(fl, p) + "), and nothing later stamps it: the object is stored finished with start after end"
+					pos[s.owner] = s.pos
+				}
+			}
+		}
+		for _, ow := range owners {
+			if !seen[ow] {
+				continue
+			}
+			n++
+			bp := fn.Decl.Pos()
+			if p, ok := pos[ow]; ok {
+				bp = p
+			}
+			r.Check(rule, "end-stamped:"+ShortFn(fn.Key)+":"+strings.TrimPrefix(ow, "workflow."), bp, bad[ow] == "", "%s", orOK(bad[ow], "every path that leaves the object terminal stamps its End (or hands it to the state that does)"))
+		}
+	}
+	if n == 0 {
+		r.Unresolved(rule, "functions assigning a terminal status")
+	}
+	// the two stampers delegated to: every returning path of BlockEnd stamps the head block, of End the plan
+	for _, d := range []struct{ key, owner string }{{smKey("BlockEnd"), "workflow.Block"}, {smKey("End"), "workflow.Plan"}} {
+		fn := r.fnByKey(rule, d.key)
+		if fn == nil {
+			continue
+		}
+		fl, paths, ok := r.flowPaths(rule, fn)
+		if !ok {
+			continue
+		}
+		bad := ""
+		for i := range paths {
+			p := &paths[i]
+			if p.Exit != ExitReturn {
+				continue
+			}
+			stamped := false
+			for _, e := range p.Ev {
+				if e.Kind == EvAssign && len(e.Lhs) == len(e.Rhs) && !e.Maybe {
+					for k, l := range e.Lhs {
+						if _, m := FieldPath(fl.Info, l, d.owner, "State", "End"); m && !isZeroTimeLit(e.Rhs[k]) {
+							stamped = true
+						}
+					}
+				}
+			}
+			if !stamped && bad == "" {
+				bad = "a path of " + ShortFn(d.key) + " returns without stamping State.End of the " + strings.TrimPrefix(d.owner, "workflow.") + " (guard " + ExitGuardKey(fl, p) + "): every state that fails or completes it relies on this stamp"
+			}
+		}
+		r.Check(rule, "end-stamped:"+ShortFn(d.key)+":every-exit", fn.Decl.Pos(), bad == "", "%s", orOK(bad, "State.End stamped on every returning path"))
+	}
+}
+
+func isZeroTimeLit(e ast.Expr) bool {
+	cl, ok := ast.Unparen(e).(*ast.CompositeLit)
+	return ok && len(cl.Elts) == 0 && strings.HasSuffix(ExprStr(cl.Type), "Time")
 }
